@@ -5,13 +5,32 @@ from . import lalrmodel
 PROPERTY = 'C02'
 TRUSTED = list(lalrmodel.TRUSTED)
 ASSUMPTIONS = ["that LALR_Analyzer builds the LALR(1) table of the grammar (compute_lr0_states, reads/includes/lookback, digraph, compute_lalr1_states) is NOT proved: bounded stand-in only",
+               "traverse(): only its alias frame is proved (no set handed in through G is written); key existence, its asserts, the stack discipline and that it computes the closure are bounded stand-in only",
                "WF(table) - goto defined, no terminal shift into the end state, no reduce cycle - is assumed by the driver contract and observed only on the enumerated family"]
 BOUNDED = [dict(name='standin.lalr-table', function='lark.parsers.lalr_analysis:LALR_Analyzer.compute_lalr (whole table construction), digraph/traverse (closure operator), grammar_analysis.calculate_sets',
                 code=native_file('bounded/c02_lalr.py'),
-                bound={'quick': '200 random grammars (3 non-terminals, 2 terminals, rhs <= 3, nullable/recursive, rule priorities), the reduced ones compared with an independent canonical-LR(1)-merged reference on every terminal string of length <= 4: construction outcome, language, offending-token index, accepts() after every prefix, no foreign exception, no hang; 41 hand-made shapes (conflicts of both kinds, nullable unit chains of length 3 in 5 definition orders, mutually right-recursive nullable rules); digraph(X, R, G) against reachability for EVERY relation on <= 3 nodes and 6000 sampled relations on 4 nodes, successor lists in both orders',
-                       'thorough': '1200 grammars, strings of length <= 5; digraph exhaustive on every relation on <= 4 nodes (65 536 x 2 orders)'},
+                bound={'quick': '200 random grammars (3 non-terminals, 2 terminals, rhs <= 3, nullable/recursive, rule priorities), the reduced ones compared with an independent canonical-LR(1)-merged reference on every terminal string of length <= 4: construction outcome, language, offending-token index, accepts() after every prefix, no foreign exception, no hang; 53 hand-made shapes (conflicts of both kinds, nullable unit chains of length 3 in 5 definition orders, mutually right-recursive nullable rules, indirect left recursion, reads-cycles with priorities); digraph composed with itself (the result of one pass is the set function of the next) on every pair of relations on <= 2 nodes and 8000 sampled pairs on 3 nodes; digraph(X, R, G) against reachability for EVERY relation on <= 3 nodes and 6000 sampled relations on 4 nodes, successor lists in both orders',
+                       'thorough': '1200 grammars, strings of length <= 5; digraph exhaustive on every relation on <= 4 nodes (65 536 x 2 orders), composed on every pair of relations on 3 nodes (262 144)'},
                 note='bounded stand-in for the table construction: never counted as proved; sampling seeded by VERIF_SEED')]
 
 
 def register(reg):
     lalrmodel.register_lalr(reg, serves=['C02', 'C08', 'C13', 'C10', 'C16'])
+
+    # ---- the closure operator of the look-ahead computation: ALIAS FRAME only (its functional correctness is the bounded stand-in's)
+    # traverse() writes the work stack, the weights, the result map and set objects it allocated itself - never a set it was handed in
+    # G: the second pass of compute_lookaheads receives the first pass's result, in which the nodes of a cycle share one set (F48)
+    E1 = 'all(implies(k in F, fresh(F[k]) or (k in old(dom(F)) and F[k] is old(content(F))[k])) for k in ANYV)'
+    ALIAS = 'all(implies(k in R, R[k] is not S) for k in ANYV)'
+    P = {'x': 'any', 'S': 'list[any]', 'N': 'dict[any,int]', 'X': 'any', 'R': 'dict[any,list[any]]', 'G': 'dict[any,set[any]]', 'F': 'dict[any,set[any]]'}
+    reg.contract('lark.parsers.lalr_analysis:traverse', serves=['C02'], params=P, returns='none',
+                 requires=['G is not F', 'N is not F', 'R is not F', 'R is not N', 'G is not N', ALIAS],
+                 modifies=['S', 'N', 'F'],
+                 # every set in the result map is one this call (or a nested call) allocated, or the one that was there before
+                 ensures=[E1],
+                 # not decided here (bounded stand-in): that the keys exist, the asserts hold and the stack is never popped empty
+                 raises={'KeyError': [], 'AssertionError': [], 'IndexError': []},
+                 loops={0: dict(inv=['x in F', 'fresh(F[x])', E1, ALIAS, 'x in R', 'R[x] is not S']),
+                        1: dict(inv=['fresh(f_x)', E1])},
+                 names={'traverse': ('contract', 'lark.parsers.lalr_analysis:traverse')})
+
